@@ -10,7 +10,56 @@ HSM-PROGRESS.sibling : the initial-transition walks of start_at (init) and of di
 HSM-BUF.O3           : in init the first load of the entry loop has index >= 0: an initial transition to the state itself (zero-length
                        walk) must be rejected, otherwise tpath[-1] is read and the outer loop never ends.
 """
+import ast
+from sa.model import AnalysisError, walk_shallow, dotted, norm
 from sa import hsmrules
+
+
+def exceptions_propagate(run, model):
+    """The exception is raised deep in init/dispatch/trans_; the user sees it only if every layer between the public call (start_at, dispatch, next_rtc,
+    complete_circuit, post_*) and the processor lets it through: decorator wrappers and overriding methods.  Two ways to lose it, both visible in the syntax:
+    a return/break/continue inside a `finally` (discards the exception in flight), and an `except` clause wide enough to catch it around the forwarding call
+    that does not re-raise."""
+    run.rule('EXC.transparent', 'no layer between the public entry points and the processor swallows an exception: no return/break/continue in a finally block, '
+                                'no catch-all handler without re-raise around the forwarding call')
+    layers = []
+    for f in model.all_funcs():
+        if f.module.name not in ('hsm', 'activeobject'):
+            continue
+        if f.parent is not None and f.parent.params and any(isinstance(c.func, ast.Name) and c.func.id in f.parent.params for c in ast.walk(f.node) if isinstance(c, ast.Call)):
+            layers.append(f)          # a decorator's wrapper: calls the function its factory was given
+        elif f.owner_class is not None and f.name in ('start_at', 'dispatch', 'next_rtc', 'complete_circuit', 'init', 'trans', 'trans_', 'post_fifo', 'post_lifo', 'recall', 'defer'):
+            layers.append(f)
+    run.floor('layers between the public calls and the processor', len(layers), 20)
+    WIDE = {'Exception', 'BaseException', 'HsmTopologyException'}
+    n_try = 0
+    for f in layers:
+        run.touch(f)
+        for t in [n for n in walk_shallow(f.node) if isinstance(n, ast.Try)]:
+            n_try += 1
+            esc = [x for st in t.finalbody for x in ast.walk(st) if isinstance(x, (ast.Return, ast.Break, ast.Continue))
+                   and not any(isinstance(p_, (ast.FunctionDef, ast.Lambda)) and any(y is x for y in ast.walk(p_)) for st2 in t.finalbody for p_ in ast.walk(st2))]
+            # break/continue of a loop that lies wholly inside the finally block do not leave it
+            esc = [x for x in esc if isinstance(x, ast.Return) or not any(isinstance(l_, (ast.For, ast.While)) and any(y is x for y in ast.walk(l_)) for st in t.finalbody for l_ in ast.walk(st))]
+            run.inst('EXC.transparent', f, 'finally block does not leave the function: ' + norm(t)[:60], not esc,
+                     '' if not esc else ('%s leaves its `finally` block with `%s`: an exception in flight - the HsmTopologyException raised by the processor for an impossible chart - is '
+                                         'discarded there, the call returns normally and the chart is left half-entered' % (f.qualname, norm(esc[0]))),
+                     node=esc[0] if esc else t, obligation=True)
+            body_calls = [c for st in t.body for c in ast.walk(st) if isinstance(c, ast.Call)]
+            forwards = [c for c in body_calls if (isinstance(c.func, ast.Name) and f.parent is not None and c.func.id in f.parent.params)
+                        or (isinstance(c.func, ast.Attribute) and c.func.attr in ('start_at', 'dispatch', 'next_rtc', 'init', 'trans_', 'complete_circuit'))]
+            if not forwards:
+                continue
+            for h in t.handlers:
+                wide = h.type is None or any(norm(x).split('.')[-1] in WIDE for x in ([h.type] if not isinstance(h.type, ast.Tuple) else h.type.elts))
+                if not wide:
+                    continue
+                reraises = any(isinstance(x, ast.Raise) for st in h.body for x in ast.walk(st))
+                run.inst('EXC.transparent', f, 'catch-all around the forwarding call re-raises', reraises,
+                         '' if reraises else ('%s wraps its forwarding call %s in `except %s:` without re-raising: the processor\'s HsmTopologyException ends there'
+                                              % (f.qualname, norm(forwards[0]), norm(h.type) if h.type is not None else '')), node=h, obligation=True)
+    run.note('try statements in the %d layers: %d' % (len(layers), n_try))
+
 
 
 def check(run, model, tier):
@@ -28,6 +77,7 @@ def check(run, model, tier):
     # the same for the initial transitions that dispatch follows after entering a target: a walk of length zero (init target is the state itself) must not
     # fall through to the entry loop with index -1 (it would enter a stale state and ask for the initial transition again, for ever)
     hsmrules.record_buffer_obligations(run, model, 'dispatch')
+    exceptions_propagate(run, model)
     run.assume('H1: top answers IGNORED to SUPER queries and does not move the cursor; a well-formed handler moves the cursor to its parent')
     run.rule('HSM-PROGRESS.selfinit', 'an initial transition that targets the state taking it leads to a raise before the next INIT query and before the method returns (abstract run under that assumption)')
     n_si = hsmrules.selfinit_rule(run, model)
